@@ -81,6 +81,26 @@ def _per_point(x, n):
     return a
 
 
+def _tables(out, tag, r, n):
+    b = r['extended_neuber_binned' if tag == 'RAM' else 'seeger_beste_binned']
+    m = b._maximum_absolute_load
+    out[tag + '_Lmax'] = _lst(_per_point(m, n)) if not np.isscalar(m) else [float(m)] * n
+    lp, ls = b._lut_primary_branch, b._lut_secondary_branch
+    nb = b._number_of_bins
+    tabs = []
+    for i in range(n):
+        if isinstance(lp.index, pd.MultiIndex):
+            sel = lp.index.get_level_values('node_id') == lp.index.get_level_values('node_id').unique()[i]
+            sel2 = ls.index.get_level_values('node_id') == ls.index.get_level_values('node_id').unique()[i]
+            a, c = lp[sel], ls[sel2]
+        else:
+            a, c = lp, ls
+        tabs.append({'load': _lst(a['load']), 'stress': _lst(a['stress']), 'strain': _lst(a['strain']),
+                     'dload': _lst(c['delta_load']), 'dstress': _lst(c['delta_stress']), 'dstrain': _lst(c['delta_strain'])})
+    out[tag + '_lut'] = tabs
+    out[tag + '_nbins'] = int(nb)
+
+
 def assess(spec, want=('ram', 'raj')):
     """One call of perform_fkm_nonlinear_assessment.  Returns the summary dict or {'error': ...}."""
     import pylife.strength.fkm_nonlinear.assessment_nonlinear_standard as A
@@ -128,32 +148,23 @@ def assess(spec, want=('ram', 'raj')):
         else:
             names.append('P_RAJ_D')
         out[tag + '_col'] = {c: column(c) for c in names}
-        # shared quantities and tables of the binned notch law
-        b = r['extended_neuber_binned' if tag == 'RAM' else 'seeger_beste_binned']
-        m = b._maximum_absolute_load
-        out[tag + '_Lmax'] = _lst(_per_point(m, n)) if not np.isscalar(m) else [float(m)] * n
-        lp, ls = b._lut_primary_branch, b._lut_secondary_branch
-        nb = b._number_of_bins
-        tabs = []
-        for i in range(n):
-            if isinstance(lp.index, pd.MultiIndex):
-                sel = lp.index.get_level_values('node_id') == lp.index.get_level_values('node_id').unique()[i]
-                sel2 = ls.index.get_level_values('node_id') == ls.index.get_level_values('node_id').unique()[i]
-                a, c = lp[sel], ls[sel2]
-            else:
-                a, c = lp, ls
-            tabs.append({'load': _lst(a['load']), 'stress': _lst(a['stress']), 'strain': _lst(a['strain']),
-                         'dload': _lst(c['delta_load']), 'dstress': _lst(c['delta_stress']), 'dstrain': _lst(c['delta_strain'])})
-        out[tag + '_lut'] = tabs
-        out[tag + '_nbins'] = int(nb)
+        # shared quantities and tables of the binned notch law (private attributes: optional, a rename must not break the check)
+        try:
+            _tables(out, tag, r, n)
+        except Exception as e:
+            out[tag + '_Lmax'] = out[tag + '_lut'] = out[tag + '_nbins'] = None
+            out.setdefault('internals_unavailable', []).append('%s tables: %s' % (tag, type(e).__name__))
     if 'raj' in want:
-        km = ap['P_RAJ_klass_max'] if 'P_RAJ_klass_max' in ap else getattr(ap, 'P_RAJ_klass_max', None)
-        out['RAJ_klass_max'] = _lst(_per_point(km, n)) if km is not None else None
-        dc = r['P_RAJ_damage_calculator']
-        de = getattr(ap, 'P_RAJ_D_e', None)
-        out['RAJ_D_e'] = _lst(_per_point(de, n)) if de is not None else None
-        out['RAJ_q'] = [int(v) for v in np.atleast_1d(np.asarray(dc._q))]
-        out['RAJ_H0'] = _lst(dc._H_0)
+        try:
+            km = ap['P_RAJ_klass_max'] if 'P_RAJ_klass_max' in ap else getattr(ap, 'P_RAJ_klass_max', None)
+            out['RAJ_klass_max'] = _lst(_per_point(km, n)) if km is not None else None
+            dc = r['P_RAJ_damage_calculator']
+            de = getattr(ap, 'P_RAJ_D_e', None)
+            out['RAJ_D_e'] = _lst(_per_point(de, n)) if de is not None else None
+            out['RAJ_q'] = [int(v) for v in np.atleast_1d(np.asarray(dc._q))]
+            out['RAJ_H0'] = _lst(dc._H_0)
+        except Exception as e:
+            out.setdefault('internals_unavailable', []).append('RAJ internals: %s' % type(e).__name__)
     return out
 
 
